@@ -747,7 +747,7 @@ class BioBasket(collections.UserList):
             if seq.id in fts:
                 seq.fts = fts.pop(seq.id)
         if len(fts) > 0:
-            missing_ids = ', '.join(fts.keys())
+            missing_ids = ', '.join(str(k) for k in fts.keys())
             warn(f'Features for seqids {missing_ids} could not be '
                  'attached to any sequence')
 
@@ -765,7 +765,7 @@ class BioBasket(collections.UserList):
                 seq.fts = seq.fts + fts.pop(seq.id)
                 seq.fts.sort()
         if len(fts) > 0:
-            missing_ids = ', '.join(fts.keys())
+            missing_ids = ', '.join(str(k) for k in fts.keys())
             warn(f'Features for seqids {missing_ids} could not be '
                  'attached to any sequence')
 
